@@ -1,8 +1,13 @@
 """C05 correspondence + search: hostile bytes against the real `JSONRPCConnection.receive_message`
-(in connection states empty / singles outstanding / batches outstanding, for every protocol
-class) and against a real `RPCSession` on a fake transport under the virtual loop (hostile
-messages, then a probe request), compared with the Lean model (`drv_c05`) and judged by the
-property oracle written from the property text."""
+(in every connection state: nothing / singles / batches outstanding, awaited, abandoned by a
+waiter that gave up, or already resolved; for every protocol class; single messages and short
+sequences on one connection) and against a real `RPCSession` on a fake transport under the
+virtual loop (hostile messages - among them long ones with multi-byte characters at every
+plausible cut point, with logging off and fully on; a response delivered in the very loop
+iteration in which the request's `sent_request_timeout` fires - then a probe request), compared
+with the Lean model (`drv_c05`) and judged by the property oracle written from the property
+text.  The oracle looks at public observables only (exceptions escaping `receive_message`, the
+bytes of `error_message`, the items returned, replies on the wire, `transport.is_closing()`)."""
 import asyncio
 import json
 import logging
@@ -11,6 +16,7 @@ import random
 from multiprocessing import Pool
 
 from harness import jwire, vloop, c05_fake
+from harness import c05_probe as pr
 from harness.base import Results
 from harness import codec_common as cc
 from tools.facts.common import fresh_import
@@ -19,8 +25,8 @@ E = jwire.enc
 same = jwire.same
 # futures completed with an exception are inspected, not awaited
 logging.getLogger('asyncio').setLevel(logging.CRITICAL)
-PROBE = b'{"jsonrpc":"2.0","method":"ping","params":[],"id":99}'
-PROBE_ID = 99
+PROBE = pr.PROBE
+PROBE_ID = pr.PROBE_ID
 
 
 # ------------------------------------------------------------------------------ classification
@@ -73,6 +79,8 @@ def family(msg, exc):
     """classifies the failing input family for the violation key"""
     if isinstance(exc, RecursionError):
         return 'RecursionError-deep-nesting'
+    if isinstance(exc, UnicodeError):
+        return type(exc).__name__
     if isinstance(exc, ValueError) and not isinstance(exc, json.JSONDecodeError):
         return 'ValueError-int-digits'
     if isinstance(exc, TypeError):
@@ -85,25 +93,17 @@ def family(msg, exc):
     return type(exc).__name__
 
 
+def exc_line(mod, e):
+    """canonical line for an exception that escaped: a ProtocolError with what it carries, or the
+    class name - the nearest class of the modelled universe for anything outside it
+    (e.g. asyncio.CancelledError -> BaseException)"""
+    if isinstance(e, mod.ProtocolError):
+        return cc.exc_line(mod, e)
+    return 'PY ' + pr.nearest_exc_name(e)
+
+
 # ------------------------------------------------------------------------------ connection level
-def build_conn(mod, cls, setup):
-    """setup: list of 'S' (single request) / 'B<k>' (batch of k requests + one notification).
-    Returns (conn, entries) with entries = [('S', id, future) | ('B', ids, future)]."""
-    conn = mod.JSONRPCConnection(cls)
-    entries = []
-    nxt = 0
-    for s in setup:
-        if s == 'S':
-            _m, fut = conn.send_request(mod.Request('m', []))
-            entries.append(('S', nxt, fut))
-            nxt += 1
-        else:
-            k = int(s[1:])
-            items = [mod.Request('m', []) for _ in range(k)] + [mod.Notification('n', [])]
-            _m, fut = conn.send_batch(mod.Batch(items))
-            entries.append(('B', list(range(nxt, nxt + k)), fut))
-            nxt += k
-    return conn, entries
+build_conn = pr.build_conn
 
 
 def setup_for(pname, state):
@@ -116,11 +116,25 @@ def setup_for(pname, state):
     return ['S', 'B2', 'S']
 
 
+def fut_state(fut):
+    """'' pending / 'c' cancelled / 'd' resolved - asyncio's public Future API"""
+    if fut.cancelled():
+        return 'c'
+    return 'd' if fut.done() else ''
+
+
+def entry_tok(e, sfx=''):
+    return (f'S{sfx} ' + cc.safe_enc(e[1])) if e[0] == 'S' else (f'B{sfx} ' + cc.safe_enc(e[1]))
+
+
 def keys_line(entries):
-    out = []
-    for e in entries:
-        out.append(('S ' + E(e[1])) if e[0] == 'S' else ('B ' + E(e[1])))
-    return f'{len(entries)}' + ''.join(' ' + k for k in out)
+    """entries as they are now (the state of each future read from the future)"""
+    return f'{len(entries)}' + ''.join(' ' + entry_tok(e, fut_state(e[2])) for e in entries)
+
+
+def setup_keys_line(entries):
+    """entries as `setup` declared them (the model's starting state)"""
+    return f'{len(entries)}' + ''.join(' ' + entry_tok(e, '' if e[4] == 'p' else e[4]) for e in entries)
 
 
 def respval_line(mod, r):
@@ -144,6 +158,8 @@ def completion_line(mod, entry):
     if exc is not None:
         return '!' + type(exc).__name__
     res = fut.result()
+    if not isinstance(res, (list, tuple)):
+        return '!' + type(res).__name__
     return f'L {len(res)}' + ''.join(' ' + respval_line(mod, r) for r in res)
 
 
@@ -177,107 +193,163 @@ def item_ids(mod, items):
     return ids
 
 
-def run_conn_case(mod, pname, setup, msg):
-    """-> dict(line=canonical result line, state=post-state line, raw outcome for the oracle)"""
-    cls = cc.protos(mod)[pname]
-    conn, entries = build_conn(mod, cls, setup)
-    pending_before = len(conn.pending_requests())
+def reply_format(mod, conn, pname):
+    """the wire format the connection speaks now - 'v1' (1.0: "result"/"error"/"id", no
+    batches) or 'v2' (2.0: "jsonrpc":"2.0") - read off a message the connection itself builds
+    through its public API (`send_notification` consumes no id and registers nothing).
+    Falls back to what the connection was constructed with (None for auto-detection: either)."""
     try:
-        ret = conn.receive_message(msg)
-        exc = None
-    except BaseException as e:   # noqa
-        if isinstance(e, (KeyboardInterrupt, SystemExit)):
-            raise
-        ret, exc = None, e
-    done = [e for e in entries if e[2].done()]
-    remaining = [e for e in entries if not e[2].done()]
-    proto_after = cc.proto_name(mod, getattr(conn, '_protocol', cls))
-    state = f'{proto_after} {keys_line(remaining)}'
-    info = {'exc': exc, 'ret': ret, 'done': done, 'entries': entries,
-            'pending_before': pending_before, 'pending_after': len(conn.pending_requests()),
-            'proto_after': proto_after}
-    if exc is not None:
-        line = cc.exc_line(mod, exc)
-    else:
-        items = list(ret) if isinstance(ret, (list, tuple)) else None
-        if items is None:
-            line = '!returned:' + type(ret).__name__
+        m = json.loads(conn.send_notification(mod.Notification('format-probe', [])).decode())
+        if isinstance(m, dict):
+            return 'v2' if m.get('jsonrpc') == '2.0' else 'v1'
+    except Exception:
+        pass
+    return {'v1': 'v1', 'v2': 'v2', 'loose': 'v2'}.get(pname)
+
+
+def proto_after(mod, conn):
+    """for the comparison with the model only: the protocol class in force, read from the
+    private attribute if it is there; None otherwise (the comparison then ignores it)"""
+    cls = getattr(conn, '_protocol', None)
+    for k, v in pr.protos(mod).items():
+        if v is cls:
+            return k
+    return None
+
+
+def run_conn_case(mod, pname, setup, msgs):
+    """Hands `msgs` one after the other to one connection in state `setup`.
+    -> list of per-step dicts (canonical state + result line for the model comparison, raw
+    outcome for the oracle)"""
+    cls = pr.protos(mod)[pname]
+    conn, entries = build_conn(mod, cls, setup)
+    steps = []
+    for msg in msgs:
+        before = pr.listed(conn, entries)
+        was_done = {id(e): e[2].done() for e in entries}
+        try:
+            ret = conn.receive_message(msg)
+            exc = None
+        except BaseException as e:   # noqa
+            if isinstance(e, (KeyboardInterrupt, SystemExit)):
+                raise
+            ret, exc = None, e
+        after = pr.listed(conn, entries)
+        if before is None or after is None:
+            # `pending_requests()` is unusable: fall back to the futures alone
+            before = [e for e in entries if not was_done[id(e)]]
+            after = [e for e in entries if not e[2].done()]
+        resolved = [e for e in entries if e[2].done() and not was_done[id(e)]]
+        vanished = [e for e in before if not any(e is x for x in after)]
+        pa = proto_after(mod, conn)
+        info = {'exc': exc, 'ret': ret, 'resolved': resolved, 'vanished': vanished,
+                'format': reply_format(mod, conn, pname), 'proto_after': pa}
+        state = f'{pa or "?"} {keys_line(after)}'
+        if exc is not None:
+            line = exc_line(mod, exc)
         else:
-            ids = item_ids(mod, items)
-            parts = []
-            for it in items:
-                if isinstance(it, mod.Request):
-                    rid = cc.safe_enc(ids[id(it)]) if ids is not None else '!noid'
-                    parts.append(f'R {jwire.str_tok(it.method)} {cc.safe_enc(it.args)} {rid}')
-                elif isinstance(it, mod.Notification):
-                    parts.append(f'N {jwire.str_tok(it.method)} {cc.safe_enc(it.args)}')
-                else:
-                    parts.append('!item:' + type(it).__name__)
-            if len(done) == 0:
-                d = '-'
-            elif len(done) == 1:
-                e = done[0]
-                d = ('S ' + E(e[1]) if e[0] == 'S' else 'B ' + E(e[1])) + ' ' + completion_line(mod, e)
+            items = list(ret) if isinstance(ret, (list, tuple)) else None
+            if items is None:
+                line = '!returned:' + type(ret).__name__
             else:
-                d = f'!{len(done)}-futures-completed'
-            line = f'ok {len(items)}' + ''.join(' ' + p for p in parts) + ' ' + d
-    info['line'] = line
-    info['state'] = state
-    return info
+                ids = item_ids(mod, items)
+                parts = []
+                for it in items:
+                    if isinstance(it, mod.Request):
+                        rid = cc.safe_enc(ids[id(it)]) if ids is not None else '!noid'
+                        parts.append(f'R {jwire.str_tok(it.method)} {cc.safe_enc(it.args)} {rid}')
+                    elif isinstance(it, mod.Notification):
+                        parts.append(f'N {jwire.str_tok(it.method)} {cc.safe_enc(it.args)}')
+                    else:
+                        parts.append('!item:' + type(it).__name__)
+                if len(resolved) == 1:
+                    e = resolved[0]
+                    d = entry_tok(e) + ' ' + completion_line(mod, e)
+                elif len(resolved) > 1:
+                    d = f'!{len(resolved)}-futures-completed'
+                elif len(vanished) == 1:
+                    d = 'D ' + entry_tok(vanished[0])
+                elif len(vanished) > 1:
+                    d = f'!{len(vanished)}-entries-dropped'
+                else:
+                    d = '-'
+                line = f'ok {len(items)}' + ''.join(' ' + p for p in parts) + ' ' + d
+        info['line'] = state + ' | ' + line
+        steps.append(info)
+    pr.retrieve(entries)
+    return steps, entries
 
 
-def oracle_conn(mod, pname, msg, outcome, payload, info):
-    """Returns None or (key, why)."""
+def reply_verdict(em, fmt, payload):
+    """`em` = error_message of a ProtocolError raised for bytes that were not a response:
+    must be one well-formed error reply (or a non-empty batch of them) in the connection's
+    format, answering this message (its id, or null)"""
+    if em is None:
+        return 'c05:no-reply-for-non-response', \
+            'ProtocolError for bytes that are not a response carries no error reply'
+    if not isinstance(em, bytes) or b'\n' in em:
+        return 'c05:reply-not-one-line', 'error reply is not one newline-free byte string'
+    try:
+        obj = cc.strict_loads(em)
+    except Exception:
+        # the one known way: the peer's id was NaN / Infinity / 1e400 (tokens Python's
+        # json accepts and re-emits although they are not JSON) and is echoed back
+        try:
+            lenient = json.loads(em.decode())
+            members = lenient if isinstance(lenient, list) else [lenient]
+            echoed = [m.get('id') for m in members if isinstance(m, dict)]
+            if any(isinstance(x, float) and (x != x or x in (float('inf'), float('-inf')))
+                   for x in echoed):
+                return 'c05:reply-echoes-nonfinite-id', \
+                    'error reply echoes a non-finite float id as a non-JSON token'
+        except Exception:
+            pass
+        return 'c05:reply-not-json', 'error reply is not valid JSON'
+    objs = obj if isinstance(obj, list) else [obj]
+    if not objs:
+        return 'c05:reply-empty-batch', 'error reply is an empty batch'
+    formats = set()
+    for o in objs:
+        if not isinstance(o, dict) or not isinstance(o.get('error'), dict) \
+                or not isinstance(o['error'].get('code'), int) \
+                or isinstance(o['error'].get('code'), bool) \
+                or not isinstance(o['error'].get('message'), str) or 'id' not in o:
+            return 'c05:reply-ill-formed', 'error reply is not a well-formed error response'
+        is_v1 = 'result' in o and o['result'] is None and 'jsonrpc' not in o
+        is_v2 = o.get('jsonrpc') == '2.0' and 'result' not in o
+        if not (is_v1 or is_v2):
+            return 'c05:reply-format', 'error reply is neither a 1.0 nor a 2.0 error response'
+        formats.add('v1' if is_v1 else 'v2')
+    if len(formats) > 1 or (fmt is not None and formats != {fmt}):
+        return 'c05:reply-format', \
+            f'error reply is in {sorted(formats)} format, the connection speaks {fmt}'
+    # the reply answers this message: its id is null or the request's own id
+    if isinstance(obj, list):
+        mids = [m.get('id') for m in payload if isinstance(m, dict)] if isinstance(payload, list) else []
+        for o in objs:
+            if o['id'] is not None and not any(same(o['id'], i) for i in mids):
+                return 'c05:reply-id', 'a batch error reply carries an id no member of the batch has'
+    else:
+        pid = payload.get('id') if isinstance(payload, dict) else None
+        if not (obj['id'] is None or same(obj['id'], pid)):
+            return 'c05:reply-id', 'error reply id is neither null nor the request id'
+    return None
+
+
+def oracle_step(mod, msg, outcome, payload, info, res=None):
+    """The property's first sentence on one call.  Returns None or (key, why)."""
     exc = info['exc']
     if exc is not None and not isinstance(exc, mod.ProtocolError):
         fam = family(msg, exc)
         return f'c05:escape-{fam}', f'{type(exc).__name__} escaped receive_message'
     if exc is not None:
-        # an erroring message leaves the outstanding requests alone
-        if info['done'] or info['pending_after'] != info['pending_before']:
-            return 'c05:error-disturbs-outstanding', 'a message that raised completed or dropped a request'
-        if not response_shaped(info['proto_after'], outcome, payload):
-            em = exc.error_message
-            if em is None:
-                return 'c05:no-reply-for-non-response', \
-                    'ProtocolError for bytes that are not a response carries no error reply'
-            if not isinstance(em, bytes) or b'\n' in em:
-                return 'c05:reply-not-one-line', 'error reply is not one newline-free byte string'
-            try:
-                obj = cc.strict_loads(em)
-            except Exception:
-                # the one known way: the peer's id was NaN / Infinity / 1e400 (tokens Python's
-                # json accepts and re-emits although they are not JSON) and is echoed back
-                try:
-                    lenient = json.loads(em.decode())
-                    members = lenient if isinstance(lenient, list) else [lenient]
-                    echoed = [m.get('id') for m in members if isinstance(m, dict)]
-                    if any(isinstance(x, float) and (x != x or x in (float('inf'), float('-inf')))
-                           for x in echoed):
-                        return 'c05:reply-echoes-nonfinite-id', \
-                            'error reply echoes a non-finite float id as a non-JSON token'
-                except Exception:
-                    pass
-                return 'c05:reply-not-json', 'error reply is not valid JSON'
-            objs = obj if isinstance(obj, list) else [obj]
-            if not objs:
-                return 'c05:reply-empty-batch', 'error reply is an empty batch'
-            want_v1 = info['proto_after'] == 'v1'
-            for o in objs:
-                if not isinstance(o, dict) or not isinstance(o.get('error'), dict) \
-                        or not isinstance(o['error'].get('code'), int) \
-                        or isinstance(o['error'].get('code'), bool) \
-                        or not isinstance(o['error'].get('message'), str) or 'id' not in o:
-                    return 'c05:reply-ill-formed', 'error reply is not a well-formed error response'
-                if want_v1:
-                    if 'result' not in o or o['result'] is not None:
-                        return 'c05:reply-format', '1.0 error reply must carry "result": null'
-                elif o.get('jsonrpc') != '2.0' or 'result' in o:
-                    return 'c05:reply-format', '2.0 error reply must carry "jsonrpc":"2.0" and no result'
-            if not isinstance(obj, list):
-                pid = payload.get('id') if isinstance(payload, dict) else None
-                if not (obj['id'] is None or same(obj['id'], pid)):
-                    return 'c05:reply-id', 'error reply id is neither null nor the request id'
+        fmt = info['format']
+        # "the bytes were a response": with batches unless the connection speaks 1.0; a
+        # connection still auto-detecting may read a list either way
+        shaped = response_shaped('v1' if fmt == 'v1' else 'v2', outcome, payload) or \
+            (fmt is None and response_shaped('v2', outcome, payload))
+        if not shaped:
+            return reply_verdict(getattr(exc, 'error_message', None), fmt, payload)
         return None
     ret = info['ret']
     if not isinstance(ret, (list, tuple)):
@@ -285,10 +357,19 @@ def oracle_conn(mod, pname, msg, outcome, payload, info):
     for it in ret:
         if not isinstance(it, (mod.Request, mod.Notification)):
             return 'c05:foreign-item', f'receive_message returned a {type(it).__name__}'
-    if len(info['done']) > 1:
-        return 'c05:several-completed', 'one message completed several outstanding requests'
-    if info['pending_before'] - info['pending_after'] != len(info['done']):
-        return 'c05:dropped-request', 'an outstanding request vanished without being completed'
+    return None
+
+
+def beyond_text(info):
+    """what the model says in addition to the property text (compared with the model, counted
+    here, never an oracle verdict): an erroring message leaves the outstanding requests alone,
+    a returning one resolves / drops at most one, and drops none that is still awaited"""
+    if info['exc'] is not None:
+        return 'error_disturbs_outstanding' if (info['resolved'] or info['vanished']) else None
+    if len(info['resolved']) > 1:
+        return 'several_completed'
+    if any(not e[2].done() for e in info['vanished']):
+        return 'dropped_awaited_request'
     return None
 
 
@@ -305,14 +386,17 @@ def _init(repo):
 
 def _conn_chunk(cases):
     out = []
-    for pname, setup, msg in cases:
-        outcome, payload = loads_outcome(msg)
-        info = run_conn_case(_mod, pname, setup, msg)
-        verdict = oracle_conn(_mod, pname, msg, outcome, payload, info)
-        _c, entries = None, info['entries']
-        pre = f'{pname} {keys_line([(e[0], e[1], None) for e in entries])}'
-        out.append((outcome, cc.safe_enc(payload) if outcome == 'V' else None, pre,
-                    info['state'] + ' | ' + info['line'], verdict))
+    for pname, setup, msgs in cases:
+        outs = [loads_outcome(m) for m in msgs]
+        steps, entries = run_conn_case(_mod, pname, setup, msgs)
+        verdict, extra = None, None
+        for m, (outcome, payload), info in zip(msgs, outs, steps):
+            verdict = verdict or oracle_step(_mod, m, outcome, payload, info)
+            extra = extra or beyond_text(info)
+        pre = f'{pname} {setup_keys_line(entries)}'
+        out.append(([(o, cc.safe_enc(p) if o == 'V' else None) for o, p in outs], pre,
+                    ' || '.join(i['line'] for i in steps), verdict, extra,
+                    any(i['proto_after'] is None for i in steps)))
     return out
 
 
@@ -328,34 +412,49 @@ def run_conn_impl(ctx, cases):
     return [r for p in parts for r in p]
 
 
+def blind_proto(line):
+    """drop the protocol token of every step (used when the implementation's protocol in force
+    cannot be read: the comparison then covers everything else)"""
+    return ' || '.join('? ' + st.split(' ', 1)[1] if ' ' in st else st for st in line.split(' || '))
+
+
 def evaluate_conn(ctx, res, cases, scope):
-    """cases: list of (pname, setup, msg bytes)"""
+    """cases: list of (pname, setup, msg bytes | [msg bytes, ...])"""
     if not cases:
         return
+    cases = [(pn, su, [m] if isinstance(m, bytes) else list(m)) for pn, su, m in cases]
     impl = run_conn_impl(ctx, cases)
     lines, idx = [], []
-    for i, ((pname, setup, msg), (outcome, penc, pre, got, verdict)) in enumerate(zip(cases, impl)):
-        if outcome.startswith('other:') or (penc is not None and penc.startswith('!')):
+    for i, ((pname, setup, msgs), (outs, pre, got, verdict, extra, blind)) in enumerate(zip(cases, impl)):
+        if any(o.startswith('other:') or (p is not None and p.startswith('!')) for o, p in outs):
             res.count('l3_outside_outcome_space')
             continue
-        if 1300 <= bracket_depth(msg) <= 1700:
+        if any(1300 <= bracket_depth(m) <= 1700 for m in msgs):
             res.count('recursion_boundary_not_compared')
             continue
-        lines.append(f'recv {pre} ' + ('V ' + penc if outcome == 'V' else outcome))
+        lines.append(f'recv {pre} ' + ' | '.join(('V ' + p) if o == 'V' else o for o, p in outs))
         idx.append(i)
     model = ctx.model(lines)
     mp = dict(zip(idx, model)) if model is not None else {}
-    for i, ((pname, setup, msg), (outcome, penc, pre, got, verdict)) in enumerate(zip(cases, impl)):
-        case = {'kind': 'conn', 'proto': pname, 'setup': setup, 'hex': msg.hex() if len(msg) <= 4000 else None,
-                'gen': None if len(msg) <= 4000 else describe_big(msg), 'scope': scope}
+    for i, ((pname, setup, msgs), (outs, pre, got, verdict, extra, blind)) in enumerate(zip(cases, impl)):
+        case = {'kind': 'conn', 'proto': pname, 'setup': setup,
+                'msgs': [m.hex() if len(m) <= 4000 else describe_big(m) for m in msgs], 'scope': scope}
         if verdict:
             res.violation(verdict[0], case, verdict[1], impl=got[:300])
-        if i in mp and mp[i] != got:
-            res.disagreement(case, got[:600], mp[i][:600])
-        tag = got.split(' | ', 1)[1].split(' ', 2)
+        if extra:
+            res.count('beyond_text_' + extra)
+        if i in mp:
+            want = blind_proto(mp[i]) if blind else mp[i]
+            if want != got:
+                res.disagreement(case, got[:600], want[:600])
+        last = got.split(' || ')[-1]
+        tag = last.split(' | ', 1)[1].split(' ', 2)
         t = tag[0] + (tag[1] if tag[0] == 'PE' else '')
         res.count(f'conn_{t}')
-        res.count(f'loads_{outcome}')
+        for o, _p in outs:
+            res.count(f'loads_{o}')
+        if ' D ' in got:
+            res.count('conn_discarded_done_future')
         if t not in ('PE-32700',):
             res.nontrivial((pname, tuple(setup), got))
     res['evaluations'] += len(cases)
@@ -524,6 +623,7 @@ def targeted_response(rng, setup):
     nxt = 0
     groups = []
     for s in setup:
+        s = s.rstrip('cd')
         if s == 'S':
             groups.append([nxt])
             nxt += 1
@@ -560,14 +660,28 @@ def targeted_response(rng, setup):
 
 
 STATES = ('empty', 'singles', 'batches', 'mixed')
+# states in which a waiter has given up (future cancelled, entry still listed: what
+# `sent_request_timeout` or any timeout around the wait leaves behind) or the future was
+# resolved by somebody else
+ABANDONED = (['Sc'], ['Sd'], ['S', 'Sc', 'S'], ['Sc', 'Sd'], ['B2c'], ['B2d'], ['B1c', 'S'],
+             ['S', 'B2c', 'S'], ['B3d', 'Sc'], ['Sc', 'B2', 'Sd'], ['B2c', 'B3d'])
+
+
+def abandoned_setup(rng, pname):
+    su = list(rng.choice(ABANDONED))
+    if pname == 'v1':
+        su = [x if x[0] == 'S' else 'S' + x[2:] for x in su]
+    return su
 
 
 def gen_conn_cases(rng, n):
     out = []
     for _ in range(n):
         pname = rng.choice(cc.PROTO_NAMES)
-        state = rng.choice(STATES)
-        setup = setup_for(pname, state)
+        if rng.random() < 0.25:
+            setup = abandoned_setup(rng, pname)
+        else:
+            setup = setup_for(pname, rng.choice(STATES))
         r = rng.random()
         if r < 0.3:
             msg = grammar_bytes(rng)
@@ -579,82 +693,90 @@ def gen_conn_cases(rng, n):
                 msg = mutate(rng, msg)
         else:
             msg = rng.choice(VALID)
-        out.append((pname, setup, msg))
+        if rng.random() < 0.15:
+            # a short history on one connection: the message, then it again / another response
+            more = [msg if rng.random() < 0.5 else targeted_response(rng, setup)
+                    for _ in range(rng.choice((1, 1, 2)))]
+            out.append((pname, setup, [msg] + more))
+        else:
+            out.append((pname, setup, msg))
     return out
 
 
+def response_to(pname, ids, kind, k=7):
+    """the peer's response to the outstanding request(s) `ids` (a list for a batch)"""
+    v1 = pname == 'v1'
+
+    def one(i, n):
+        if kind == 'error':
+            return ({"result": None, "error": {"code": 5, "message": "e"}, "id": i} if v1
+                    else {"jsonrpc": "2.0", "error": {"code": 5, "message": "e"}, "id": i})
+        if kind == 'malformed':
+            return {"id": i} if v1 else {"jsonrpc": "2.0", "id": i}
+        if kind == 'both':
+            return {"jsonrpc": "2.0", "result": n, "error": {"code": 5, "message": "e"}, "id": i}
+        return {"result": n, "error": None, "id": i} if v1 else {"jsonrpc": "2.0", "result": n, "id": i}
+    if isinstance(ids, list):
+        return json.dumps([one(i, k + n) for n, i in enumerate(reversed(ids))]).encode()
+    return json.dumps(one(ids, k)).encode()
+
+
+def abandoned_family():
+    """every outstanding entry of every abandoned-state setup is answered by the peer: with a
+    valid response, an error response, a malformed response whose id is recoverable, a response
+    with both result and error; then the same response again (a duplicate), then a valid one"""
+    out = []
+    for pname in cc.PROTO_NAMES:
+        for su0 in ABANDONED + (['S'], ['B2'], ['S', 'B2', 'S']):
+            su = list(su0)
+            if pname == 'v1':
+                su = [x if x[0] == 'S' else 'S' + x[2:] for x in su]
+            nxt, targets = 0, []
+            for tok in su:
+                t = tok.rstrip('cd')
+                if t == 'S':
+                    targets.append(nxt)
+                    nxt += 1
+                else:
+                    k = int(t[1:])
+                    targets.append(list(range(nxt, nxt + k)))
+                    nxt += k
+            for ids in targets:
+                for kind in ('valid', 'error', 'malformed', 'both'):
+                    m = response_to(pname, ids, kind)
+                    out.append((pname, su, [m]))
+                    out.append((pname, su, [m, m, response_to(pname, ids, 'valid', 9)]))
+            # everything answered in turn, last to first
+            out.append((pname, su, [response_to(pname, ids, 'valid') for ids in reversed(targets)]))
+    return out
+
+
+def grid_family():
+    """the probes of the decision table (tools/facts/c05.py) as ordinary cases"""
+    return [(pn, pr.STATES[st], [pr.INPUTS[i]]) for pn in cc.PROTO_NAMES
+            for i, st in pr.public_grid(pn)]
+
+
 # ------------------------------------------------------------------------------ session level
-def run_session_case(repo, pname, setup, msgs, limited=True):
-    """Feeds `msgs` (unframed) to a real server RPCSession whose connection uses protocol
-    `pname` and has `setup` outstanding, then the probe.  Returns observations."""
-    mod = fresh_import(repo, 'aiorpcx.jsonrpc')
-    smod = fresh_import(repo, 'aiorpcx.session')
-    rmod = fresh_import(repo, 'aiorpcx.rawsocket')
-    c05_fake.bind_virtual_time(smod)
-    cls = cc.protos(mod)[pname]
-    obs = {}
+_mods = {}
 
-    class S(smod.RPCSession):
-        async def handle_request(self, request):
-            return 'pong'
 
-    if not limited:
-        S.cost_hard_limit = 0
+def repo_mods(repo):
+    if repo not in _mods:
+        _mods[repo] = (fresh_import(repo, 'aiorpcx.jsonrpc'), fresh_import(repo, 'aiorpcx.session'),
+                       fresh_import(repo, 'aiorpcx.rawsocket'))
+    return _mods[repo]
 
-    async def go():
-        conn_holder = {}
 
-        def factory(transport):
-            conn, entries = build_conn(mod, cls, setup)
-            conn_holder['entries'] = entries
-            return S(transport, connection=conn)
-        p, t, session = c05_fake.make(rmod, smod, factory)
-        await c05_fake.settle()
-        per = []
-        for m in msgs:
-            before = len(t.writes)
-            p.data_received(m + b'\n')
-            await c05_fake.settle(40)
-            # let throttling sleeps elapse (virtual time)
-            await asyncio.sleep(5)
-            await c05_fake.settle(10)
-            per.append(len(t.writes) - before)
-        before = len(t.writes)
-        closing_before_probe = t.is_closing()
-        if not closing_before_probe:
-            p.data_received(PROBE + b'\n')
-            await c05_fake.settle(40)
-            await asyncio.sleep(40)
-            await c05_fake.settle(10)
-        answered = False
-        for w in t.writes[before:]:
-            for part in w.split(b'\n'):
-                try:
-                    o = json.loads(part.decode())
-                except Exception:
-                    continue
-                for x in (o if isinstance(o, list) else [o]):
-                    if isinstance(x, dict) and x.get('id') == PROBE_ID and type(x.get('id')) is int:
-                        answered = True
-        task = p._process_messages_task if hasattr(p, '_process_messages_task') else None
-        texc = None
-        if task is not None and task.done() and not task.cancelled():
-            texc = task.exception()
-        obs.update(per=per, answered=answered, closing=t.is_closing(), task_exc=texc,
-                   task_done=bool(task is not None and task.done()))
-        if not t.is_closing():
-            t.close()
-            await c05_fake.settle(20)
-    try:
-        vloop.run(go())
-    except vloop.Deadlock:
-        obs.setdefault('deadlock', True)
-    except vloop.Livelock:
-        obs.setdefault('livelock', True)
-    return obs
+def run_session_case(repo, pname, setup, msgs, opts=None):
+    opts = opts or {}
+    return pr.run_session(repo_mods(repo), pname, setup, msgs, verbose=bool(opts.get('verbose')),
+                          late=opts.get('late'), script=opts.get('script'))
 
 
 def oracle_session(obs, msgs):
+    """The property's second sentence: after the bytes the session still serves (the probe
+    request is answered) or has closed the connection."""
     if obs.get('livelock'):
         return 'c05:session-livelock', 'the session spins without progress'
     if 'answered' not in obs:
@@ -662,36 +784,59 @@ def oracle_session(obs, msgs):
     if not obs['answered'] and not obs['closing']:
         exc = obs.get('task_exc')
         fam = family(msgs[-1] if msgs else b'', exc) if exc is not None else 'no-exception'
-        # find the message that killed the task for the key
         return f'c05:session-wedged-{fam}', \
             'after the hostile bytes the probe request is not answered and the transport is still open'
     return None
 
 
-def session_phase(obs):
-    if 'answered' not in obs:
-        return 'hang'
-    if obs['closing']:
-        return 'closed'
-    return 'receiving' if obs['answered'] else 'dead'
+session_phase = pr.session_phase
 
 
 def _sess_chunk(args):
     repo, cases = args
     out = []
-    for pname, setup, msgs in cases:
-        obs = run_session_case(repo, pname, setup, msgs)
+    for pname, setup, msgs, opts in cases:
+        obs = run_session_case(repo, pname, setup, msgs, opts)
         outcomes = [loads_outcome(m) for m in msgs]
         out.append((session_phase(obs), obs.get('per'), oracle_session(obs, msgs),
                     [(o, cc.safe_enc(p) if o == 'V' else None) for o, p in outcomes],
-                    type(obs.get('task_exc')).__name__ if obs.get('task_exc') is not None else None))
+                    type(obs.get('task_exc')).__name__ if obs.get('task_exc') is not None else None,
+                    obs.get('ask')))
     return out
 
 
+def sess_model_line(pname, setup, msgs, outs, opts):
+    """the model's view of a session case, or None where the model does not apply"""
+    if any(o.startswith('other:') or (p is not None and p.startswith('!')) for o, p in outs) or \
+            any(1300 <= bracket_depth(m) <= 1700 for m in msgs) or len(msgs) > 4:
+        return None
+    late = (opts or {}).get('late')
+    if (opts or {}).get('script'):
+        return None
+    if late:
+        if setup or msgs:
+            return None
+        # the session's own request (ids 0 / 0,1 on a fresh connection); its waiter has given
+        # up unless the response comes clearly before the deadline
+        sfx = '' if late['delta'] < -1e-6 else 'c'
+        ids = 0 if late['what'] == 'single' or pname == 'v1' else [0, 1]
+        keys = f'1 S{sfx} {E(0)}' if ids == 0 else f'1 B{sfx} {E(ids)}'
+        resp = pr.late_response(pname, late['what'], late['resp'], [0] if ids == 0 else ids)
+        reps = [resp, resp] if late['resp'] == 'duplicate' else [resp]
+        outs = [loads_outcome(r) for r in reps]
+        outs = [(o, cc.safe_enc(p) if o == 'V' else None) for o, p in outs]
+    elif not msgs:
+        return None
+    else:
+        keys = fake_keys(setup)
+    return f'sess {pname} {keys} ' + ' | '.join(('V ' + p) if o == 'V' else o for o, p in outs)
+
+
 def evaluate_sessions(ctx, res, cases, scope):
-    """cases: list of (pname, setup, [msg bytes])"""
+    """cases: list of (pname, setup, [msg bytes][, opts])"""
     if not cases:
         return
+    cases = [(c[0], c[1], c[2], c[3] if len(c) > 3 else None) for c in cases]
     if len(cases) < 1500:
         impl = _sess_chunk((ctx.repo, cases))
     else:
@@ -702,57 +847,72 @@ def evaluate_sessions(ctx, res, cases, scope):
             parts = pool.map(_sess_chunk, jobs)
         impl = [r for p in parts for r in p]
     lines, idx = [], []
-    for i, ((pname, setup, msgs), (phase, per, verdict, outs, texc)) in enumerate(zip(cases, impl)):
-        if any(o.startswith('other:') or (p is not None and p.startswith('!')) for o, p in outs) or \
-                any(1300 <= bracket_depth(m) <= 1700 for m in msgs) or len(msgs) > 4 or not msgs:
-            continue
-        _c, entries = None, None
-        keys = fake_keys(setup)
-        lines.append(f'sess {pname} {keys} ' + ' | '.join(('V ' + p) if o == 'V' else o for o, p in outs))
-        idx.append(i)
+    for i, ((pname, setup, msgs, opts), (phase, per, verdict, outs, texc, ask)) in enumerate(zip(cases, impl)):
+        line = sess_model_line(pname, setup, msgs, outs, opts)
+        if line is not None:
+            lines.append(line)
+            idx.append(i)
     model = ctx.model(lines)
     mp = dict(zip(idx, model)) if model is not None else {}
-    for i, ((pname, setup, msgs), (phase, per, verdict, outs, texc)) in enumerate(zip(cases, impl)):
+    for i, ((pname, setup, msgs, opts), (phase, per, verdict, outs, texc, ask)) in enumerate(zip(cases, impl)):
         case = {'kind': 'session', 'proto': pname, 'setup': setup,
                 'msgs': [m.hex() if len(m) <= 4000 else describe_big(m) for m in msgs], 'scope': scope}
+        if opts:
+            case['opts'] = opts
         if verdict:
-            res.violation(verdict[0], case, verdict[1], impl=f'phase={phase} task_exc={texc}')
+            res.violation(verdict[0], case, verdict[1], impl=f'phase={phase} task_exc={texc} ask={ask}')
         res.count('session_' + phase)
+        if opts and opts.get('verbose'):
+            res.count('session_with_debug_logging')
+        if opts and opts.get('late'):
+            res.count(f'session_late_{ask}')
+        if opts and opts.get('script'):
+            res.count('session_history')
+            for a_ in (ask or '').split(','):
+                if a_:
+                    res.count(f'session_history_ask_{a_}')
         if i in mp:
             mphase, mobs = (mp[i].split(' ', 1) + [''])[:2]
             mobs = mobs.split(',') if mobs else []
             bad = mphase != phase
             # an error reply is exactly one write, silence is none (spawned work is not compared)
-            if not bad and per is not None and len(mobs) == len(per) and phase != 'dead':
+            if not bad and per is not None and len(mobs) == len(per) and phase != 'dead' \
+                    and not (opts and opts.get('late')):
                 for o, w in zip(mobs, per):
                     if o == 'reply' and w != 1:
                         bad = True
-                    if o in ('silent', 'resolved', '-') and w != 0:
+                    if o in ('silent', 'resolved', 'discarded', '-') and w != 0:
                         bad = True
             if bad:
                 res.disagreement(case, f'{phase} writes={per}', mp[i])
-        res.nontrivial(('s', pname, tuple(setup), tuple(m[:60] for m in msgs)))
+        res.nontrivial(('s', pname, tuple(setup), tuple(m[:60] + m[90:110] for m in msgs),
+                        json.dumps(opts, sort_keys=True) if opts else None))
     res['evaluations'] += len(cases)
 
 
 def fake_keys(setup):
-    entries, nxt = [], 0
+    toks, nxt = [], 0
     for s in setup:
+        sfx = s[-1] if s[-1] in 'cd' else ''
+        s = s.rstrip('cd')
         if s == 'S':
-            entries.append(('S', nxt, None))
+            toks.append(f'S{sfx} {E(nxt)}')
             nxt += 1
         else:
             k = int(s[1:])
-            entries.append(('B', list(range(nxt, nxt + k)), None))
+            toks.append(f'B{sfx} {E(list(range(nxt, nxt + k)))}')
             nxt += k
-    return keys_line(entries)
+    return f'{len(toks)}' + ''.join(' ' + t for t in toks)
 
 
 def gen_session_cases(rng, n, pool):
     out = []
     for _ in range(n):
         pname = rng.choice(cc.PROTO_NAMES)
-        setup = setup_for(pname, rng.choice(STATES))
+        if rng.random() < 0.2:
+            setup = abandoned_setup(rng, pname)
+        else:
+            setup = setup_for(pname, rng.choice(STATES))
         k = rng.choice((1, 1, 2, 3))
         msgs = []
         for _ in range(k):
@@ -765,7 +925,106 @@ def gen_session_cases(rng, n, pool):
                 msgs.append(targeted_response(rng, setup))
             else:
                 msgs.append(rng.choice(VALID))
-        out.append((pname, setup, msgs))
+        opts = {'verbose': True} if rng.random() < 0.3 else None
+        out.append((pname, setup, msgs, opts))
+    return out
+
+
+# plausible places for code to cut a message (for a log line, a preview, a size check)
+CUTS = (100, 64, 128, 256, 1000, 1024)
+
+
+def long_message_family(deep_tier):
+    """long messages of every kind, with a 2-, 3- or 4-byte character (and an ASCII control)
+    beginning at every offset 96..102 - so that it straddles byte 100 in every possible way -
+    and just before the other plausible cut points; each with logging at its defaults and with
+    debug logging, verbosity and log_me switched on"""
+    out = []
+    for kind in pr.KINDS:
+        for width in (2, 3, 4, 1):
+            starts = list(range(90, 111) if deep_tier else range(96, 103))
+            for cut in CUTS[1:]:
+                starts += list(range(cut - 4, cut + 2)) if deep_tier else [cut - 1]
+            if width == 1:
+                starts = [99, 1023]
+            for start in starts:
+                m = pr.long_message(kind, width, start)
+                for verbose in (False, True):
+                    out.append(('v2', [], [m], {'verbose': True} if verbose else None))
+    # dense runs: every cut point from behind the fixed prefix to byte 1100, and from byte 2
+    for verbose in (False, True):
+        opts = {'verbose': True} if verbose else None
+        for kind in pr.KINDS:
+            for width in (2, 3, 4):
+                for align in range(width):
+                    out.append(('v2', [], [pr.dense_message(kind, width, align)], opts))
+        for kind in pr.EARLY:
+            for width in (2, 3, 4):
+                for align in range(width):
+                    out.append(('v2', [], [pr.early_message(kind, width, align)], opts))
+    # the same message classes on the other protocols, one representative each
+    for pname in ('v1', 'loose', 'auto'):
+        for kind in pr.KINDS:
+            for width in (2, 3, 4):
+                out.append((pname, [], [pr.straddling(kind, width, 100)], {'verbose': True}))
+                out.append((pname, [], [pr.straddling(kind, width, 100)], None))
+    return out
+
+
+# seconds between the deadline of the session's own request and the delivery of the peer's
+# response; -5e-10 is below the loop's clock resolution: same loop iteration, ahead of the timer
+LATE_DELTAS = (-1.0, -5e-10, 0.0, 5e-10, 1.0)
+
+
+def late_family(deep_tier):
+    """the session's own request (batch) times out (sent_request_timeout) and the peer's
+    response - valid, error, malformed with the id, sent twice - is delivered around the
+    deadline, in particular in the same loop iteration as the timeout; then the probe"""
+    out = []
+    for pname in ('v2', 'loose', 'v1', 'auto') if deep_tier else ('v2', 'v1', 'auto'):
+        for what in ('single', 'batch'):
+            if what == 'batch' and pname == 'v1':
+                continue
+            for resp in ('valid', 'error', 'malformed', 'duplicate'):
+                for delta in LATE_DELTAS:
+                    for verbose in ((False, True) if deep_tier else (False,)):
+                        opts = {'late': {'what': what, 'resp': resp, 'delta': delta}}
+                        if verbose:
+                            opts['verbose'] = True
+                        out.append((pname, [], [], opts))
+    return out
+
+
+ANSWER_KINDS = ('valid', 'error', 'malformed', 'duplicate')
+
+
+def history_family(rng, n, pool):
+    """random histories of local and remote activity before the probe: the session sends
+    requests and batches of its own, time passes (their timeouts fire), the peer answers them -
+    at once, or around the deadline (in particular in the same loop iteration as the timeout) -
+    correctly, with errors, malformed, twice, and sends hostile bytes in between"""
+    out = []
+    small = [m for m in pool if len(m) < 400]
+    for _ in range(n):
+        pname = rng.choice(('v2', 'v2', 'loose', 'auto', 'v1'))
+        steps, asks = [], 0
+        for _k in range(rng.randint(2, 7)):
+            r = rng.random()
+            if asks == 0 or r < 0.3:
+                steps.append(['ask', rng.choice(('single', 'batch'))])
+                asks += 1
+            elif r < 0.42:
+                steps.append(['sleep', rng.choice((0.0, 1.0, 29.0, 29.9999999995, 30.0, 31.0))])
+            elif r < 0.82:
+                steps.append(['answer', rng.randrange(asks), rng.choice(ANSWER_KINDS),
+                              rng.choice((None, -1.0, -5e-10, -5e-10, 0.0, 5e-10, 1.0))])
+            else:
+                steps.append(['peer', rng.choice(small).hex()])
+        opts = {'script': steps}
+        if rng.random() < 0.3:
+            opts['verbose'] = True
+        msgs = [rng.choice(small)] if rng.random() < 0.3 else []
+        out.append((pname, [], msgs, opts))
     return out
 
 
@@ -774,6 +1033,8 @@ def rebuild(m):
     if isinstance(m, list):
         if m[0] == 'hex':
             return bytes.fromhex(m[1])
+        if m[0] == 'long':
+            return pr.long_message(m[1], m[2], m[3])
         return BIG[m[0]](m[1])
     return bytes.fromhex(m)
 
@@ -788,26 +1049,37 @@ def load_corpus(verif):
                 continue
             d = json.loads(line)
             if d['kind'] == 'conn':
-                msg = rebuild(d['gen']) if d.get('gen') else (
-                    d['text'].encode() if 'text' in d else bytes.fromhex(d['hex']))
-                conn.append((d['proto'], d['setup'], msg))
+                if 'texts' in d:
+                    msgs = [t.encode() for t in d['texts']]
+                elif 'msgs' in d:
+                    msgs = [rebuild(m) for m in d['msgs']]
+                else:
+                    msgs = [rebuild(d['gen']) if d.get('gen') else (
+                        d['text'].encode() if 'text' in d else bytes.fromhex(d['hex']))]
+                conn.append((d['proto'], d['setup'], msgs))
             else:
-                sess.append((d['proto'], d['setup'],
-                             [m.encode() if isinstance(m, str) and d.get('text') else rebuild(m)
-                              for m in d['msgs']]))
+                sess.append((d['proto'], d['setup'], [rebuild(m) for m in d['msgs']], d.get('opts')))
     return conn, sess
 
 
 RULE = ('connection case = (protocol class, outstanding requests: none / 3 singles / batches of 2 '
-        'and 3 / mixed, message bytes); session case = (protocol, outstanding, 1-3 hostile '
-        'messages, then a probe request) on a real RPCSession over a fake transport and the '
-        'virtual loop.  Messages: the odd-typed-id table (32 id texts x 13 message shapes, all id '
-        'pairs in 2-member response batches) and the resource-limit family (nesting 10^3..10^5 in '
-        'six positions, 10^3..10^5-digit numbers in seven positions, 20k-member batches) in every '
+        'and 3 / mixed / states in which a waiter gave up or the future is already resolved, one '
+        'message or a short sequence on the same connection); session case = (protocol, '
+        'outstanding, 0-3 hostile messages, logging off or fully on, optionally a history before '
+        'them: the session\'s own requests / batches timing out, time passing, the peer answering '
+        'them at once or around the deadline - in particular in the same loop iteration as the '
+        'timeout - and sending hostile bytes in between; then a probe request) on a real RPCSession over a fake transport and the virtual loop.  Messages: the '
+        'odd-typed-id table (32 id texts x 13 message shapes, all id pairs in 2-member response '
+        'batches), the decision-table grid, responses of four kinds (+ duplicates) to every entry '
+        'of every abandoned state, the resource-limit family (nesting 10^3..10^5 in six '
+        'positions, 10^3..10^5-digit numbers in seven positions, 20k-member batches) in every '
         'state x protocol; seeded grammar-based JSON text (odd whitespace, duplicate keys, NaN, '
         'raw non-ASCII), byte-mutated valid messages, invalid UTF-8, responses aimed at the '
-        'outstanding ids (permuted, duplicated, near-miss id types).  non-trivial = distinct '
-        '(protocol, state, result line) other than plain parse errors; distinct session cases')
+        'outstanding ids (permuted, duplicated, near-miss id types); long messages of 8 kinds '
+        'with a 2/3/4-byte character starting at every offset 96..102 and before 64/128/256/1000/'
+        '1024, and dense runs of 2/3/4-byte characters in every alignment over bytes 2..140 and '
+        '~30..1100 (every cut point inside a character).  non-trivial = distinct (protocol, state, result line) other than plain parse '
+        'errors; distinct session cases')
 
 
 def run(ctx):
@@ -818,7 +1090,13 @@ def run(ctx):
     evaluate_conn(ctx, res, cconn, 'corpus')
     evaluate_sessions(ctx, res, csess, 'corpus')
     res['scopes']['corpus'] = len(cconn) + len(csess)
-    # (b) exhaustive tables: odd ids and resource limits x protocol x state
+    # (b) exhaustive tables: decision-table grid, abandoned states, odd ids, resource limits
+    cases = grid_family()
+    evaluate_conn(ctx, res, cases, 'grid')
+    res['scopes']['grid_cases'] = len(cases)
+    cases = abandoned_family()
+    evaluate_conn(ctx, res, cases, 'abandoned')
+    res['scopes']['abandoned_state_cases'] = len(cases)
     odd = odd_id_messages()
     cases = [(pn, setup_for(pn, st), m) for m in odd for pn in cc.PROTO_NAMES for st in STATES]
     evaluate_conn(ctx, res, cases, 'odd-ids')
@@ -833,15 +1111,24 @@ def run(ctx):
     evaluate_conn(ctx, res, gen_conn_cases(rng, n), 'generated')
     res['scopes']['generated_conn'] = n
     # (d) session level
+    scases = late_family(ctx.deep)
+    evaluate_sessions(ctx, res, scases, 'late-response')
+    res['scopes']['session_late_response_cases'] = len(scases)
+    lcases = long_message_family(ctx.deep)
+    evaluate_sessions(ctx, res, lcases, 'long-messages')
+    res['scopes']['session_long_message_cases'] = len(lcases)
     small_big = [BIG[k](d) for k in ('deep-list', 'deep-id-response', 'digits-id', 'digits-bare', 'deep-unclosed')
                  for d in ((1000, 5000, 100000) if not ctx.deep else BIG_SIZES)]
     pool = odd + small_big * 3
+    hcases = history_family(rng, 6000 if ctx.deep else 250, odd + VALID)
+    evaluate_sessions(ctx, res, hcases, 'history')
+    res['scopes']['session_history_cases'] = len(hcases)
     ns = 12000 if ctx.deep else 400
-    scases = [(pn, setup_for(pn, 'mixed'), [m]) for m in small_big for pn in ('v2', 'v1')]
-    scases += gen_session_cases(rng, ns, pool)
-    evaluate_sessions(ctx, res, scases, 'session')
-    res['scopes']['session_cases'] = len(scases)
-    for c in scases[-2:]:
+    gcases = [(pn, setup_for(pn, 'mixed'), [m], None) for m in small_big for pn in ('v2', 'v1')]
+    gcases += gen_session_cases(rng, ns, pool)
+    evaluate_sessions(ctx, res, gcases, 'session')
+    res['scopes']['session_cases'] = len(gcases)
+    for c in gcases[-2:]:
         res.sample({'proto': c[0], 'setup': c[1], 'msgs': [m[:80].decode('latin-1') for m in c[2]]})
     return res.finish(RULE, exhaustive=True)
 
@@ -851,10 +1138,13 @@ def replay(ctx, case):
         case = case['case']
     res = Results()
     if case.get('kind') == 'conn':
-        msg = rebuild(case['gen']) if case.get('gen') else bytes.fromhex(case['hex'])
-        evaluate_conn(ctx, res, [(case['proto'], case['setup'], msg)], 'replay')
+        if 'msgs' in case:
+            msgs = [rebuild(m) for m in case['msgs']]
+        else:
+            msgs = [rebuild(case['gen']) if case.get('gen') else bytes.fromhex(case['hex'])]
+        evaluate_conn(ctx, res, [(case['proto'], case['setup'], msgs)], 'replay')
     elif case.get('kind') == 'session':
-        evaluate_sessions(ctx, res, [(case['proto'], case['setup'], [rebuild(m) for m in case['msgs']])],
-                          'replay')
+        evaluate_sessions(ctx, res, [(case['proto'], case['setup'], [rebuild(m) for m in case['msgs']],
+                                      case.get('opts'))], 'replay')
     res.sample({k: v for k, v in case.items() if k != 'hex'})
     return res.finish('replay of one recorded case')
